@@ -1275,13 +1275,19 @@ struct StackSys {
     }
 };
 
+// binary actions (swap, assignment, relational operators) use partner states with id < g_partner_cap; the big thorough
+// configurations lower it (BFS order: the first ids are the shortest histories, all sizes 0..N are among them)
+std::size_t g_partner_cap = 100000;
+
 template <typename Sys, typename... A>
 void explore(mc::Reporter& r, std::size_t maxStates, std::size_t maxDepth, A... args)
 {
     Sys sys{args...};
     mc::ExploreLimits lim;
-    lim.max_states = maxStates;
-    lim.max_depth  = maxDepth;
+    lim.max_states   = maxStates;
+    lim.max_depth    = maxDepth;
+    lim.max_partners = g_partner_cap;
+    if (g_partner_cap < 100000) { r.note(cat("binary actions restricted to partner states #0..#", g_partner_cap - 1)); }
     mc::Explorer<Sys> ex(sys, r, lim);
     ex.run();
 }
@@ -1313,10 +1319,12 @@ using TCO = mc::Tracked<mc::copy_only>;
 using TTD = mc::Tracked<mc::trivial_default>;
 
 template <typename T, std::size_t N, int K>
-void add_sv(mc::Main& m, std::vector<std::string> tiers, int poolLen)
+void add_sv(mc::Main& m, std::vector<std::string> tiers, int poolLen, std::size_t partners = 100000)
 {
-    m.job(cat("static_vector<", tname<T>(), ",", N, ">/k", K), tiers,
-        [=](mc::Reporter& r) { explore<StaticVectorSys<T, N, K>>(r, 3000000, 1000, poolLen); });
+    m.job(cat("static_vector<", tname<T>(), ",", N, ">/k", K), tiers, [=](mc::Reporter& r) {
+        g_partner_cap = partners;
+        explore<StaticVectorSys<T, N, K>>(r, 3000000, 1000, poolLen);
+    });
 }
 template <typename T, std::size_t N, int K>
 void add_iv(mc::Main& m, std::vector<std::string> tiers)
@@ -1370,6 +1378,8 @@ int main(int argc, char** argv)
     add_sv<int, 4, 2>(m, both, 2);
     add_sv<int, 3, 3>(m, th, 3);
     add_sv<int, 5, 2>(m, th, 3);
+    add_sv<int, 4, 3>(m, th, 2, 400);
+    add_sv<int, 6, 2>(m, th, 2, 300);
 #endif
 #if !defined(MC_PART) || MC_PART == 2
     add_sv<TCM, 0, 2>(m, both, 2);
@@ -1379,6 +1389,8 @@ int main(int argc, char** argv)
     add_sv<TCM, 4, 2>(m, both, 2);
     add_sv<TCM, 3, 3>(m, th, 3);
     add_sv<TCM, 5, 2>(m, th, 3);
+    add_sv<TCM, 4, 3>(m, th, 2, 400);
+    add_sv<TCM, 6, 2>(m, th, 2, 400);
 #endif
 #if !defined(MC_PART) || MC_PART == 3
     add_sv<TMO, 1, 2>(m, both, 2);
@@ -1401,6 +1413,9 @@ int main(int argc, char** argv)
     add_iv<TCO, 3, 2>(m, both);
     add_iv<int, 6, 3>(m, th);
     add_iv<TCM, 5, 3>(m, th);
+    add_iv<int, 8, 3>(m, th);
+    add_iv<TMO, 5, 3>(m, th);
+    add_iv<TCO, 5, 3>(m, th);
 
     add_st<int, 1, 2>(m, both);
     add_st<int, 3, 2>(m, both);
